@@ -80,14 +80,16 @@ CodeAfterRet(prog, fin) == fin.status = "ret" /\ fin.ev[N(fin)].i + 1 < Len(prog
 (* F10b (MVP-6.x, >= 2 units): a store to a line whose fetch (by an older load) is     *)
 (* still in flight misses the cache and bypasses it; the fetched line then holds the   *)
 (* old bytes.  Masks: a load that first touches a line followed within 310 executed    *)
-(* instructions by a store to the same line.                                           *)
+(* instructions by a store to the same line that does not depend on the loaded value.  *)
 LoadMissThenStore(prog, fin) ==
   \E i \in 1 .. N(fin), j \in 1 .. N(fin) :
     /\ i < j /\ j - i <= 310
     /\ IsLoadAt(prog, fin, i) /\ IsStoreAt(prog, fin, j) /\ LineOf(fin.ev[i].a) = LineOf(fin.ev[j].a)
     /\ ~\E h \in 1 .. (i - 1) : IsLoadAt(prog, fin, h) /\ LineOf(fin.ev[h].a) = LineOf(fin.ev[i].a)
+    \* the store does not wait for that load: it reads no register the load writes
+    /\ (Reads(prog, fin, j) \cap Writes(prog, fin, i)) = {}
 
-(* F10c (MVP-7.0 .. 8, >= 2 cores): the control unit tracks register hazards only;     *)
+(* F10c (MVP-7.0 .. 8, >= 3 cores): the control unit tracks register hazards only;     *)
 (* two memory instructions on different cores are ordered by their latencies, not by   *)
 (* program order.  Masks: two executed memory instructions, at least one a store, on   *)
 (* the same cache line, at most 310 executed instructions apart.                        *)
